@@ -12,3 +12,5 @@ import PvProofs.C19
 #print axioms PvProofs.C19.splitCoinByBips_never_fails
 #print axioms PvProofs.C19.splitCoinByBips_rejects
 #print axioms PvProofs.C19.ratio_fee_monotone
+#print axioms PvProofs.C19.csfOthers_ok
+#print axioms PvProofs.C19.commitmentFee_formula
